@@ -802,6 +802,13 @@ func c11Child(ctx *runCtx, spec string) {
 			}
 		}, workers)
 		ctx.rep.Count("random_sequences", int64(count))
+	case strings.HasPrefix(spec, "scale:"):
+		var seed int64
+		var n int
+		var ts uint64
+		fmt.Sscanf(spec, "scale:%d:%d:%d", &seed, &n, &ts)
+		c11Scale(ctx, seed, n, ts)
+		c11Scale(ctx, seed+1, n, ts)
 	case spec == "oversize":
 		// entries of exactly the table size (D4-style non-termination is caught by the watchdog)
 		var cs []c11Case
@@ -844,6 +851,8 @@ func c11Run(ctx *runCtx) int {
 			batch{Spec: "exh:4:128:1", Timeout: 3 * time.Minute},
 			batch{Spec: "oversize", Timeout: time.Minute},
 			batch{Spec: fmt.Sprintf("rnd:%d:300:100:600", seed*1000+1), Timeout: 3 * time.Minute},
+			batch{Spec: fmt.Sprintf("scale:%d:25000:1048576", seed*10), Timeout: 5 * time.Minute},
+			batch{Spec: fmt.Sprintf("scale:%d:6000:131072", seed*10+2), Timeout: 5 * time.Minute},
 		)
 	} else {
 		batches = append(batches,
@@ -851,6 +860,9 @@ func c11Run(ctx *runCtx) int {
 			batch{Spec: "exh:5:128:1", Timeout: 20 * time.Minute},
 			batch{Spec: "exh:4:256:1", Timeout: 5 * time.Minute},
 			batch{Spec: "oversize", Timeout: time.Minute},
+			batch{Spec: fmt.Sprintf("scale:%d:25000:1048576", seed*10), Timeout: 10 * time.Minute},
+			batch{Spec: fmt.Sprintf("scale:%d:120000:1048576", seed*10+2), Timeout: 10 * time.Minute},
+			batch{Spec: fmt.Sprintf("scale:%d:40000:262144", seed*10+4), Timeout: 10 * time.Minute},
 		)
 		for i := 0; i < 6; i++ {
 			batches = append(batches, batch{Spec: fmt.Sprintf("rnd:%d:500:200:1200", seed*1000+int64(i)+10), Timeout: 20 * time.Minute})
